@@ -149,6 +149,15 @@ CLAIMED = {
         design_ref="DESIGN.md section 6 C16",
         note="Trusted: TLC; the harness snapshotter; ext4 as root; chroot of the same filesystem as jail; kernel symlink-following per syscall; bounded universes and seeded random trees. moby/patternmatcher is trusted for single-pattern verdicts.",
         technique="TLA+ reference filter (FilterRef) + TLC trace validation of real filtered copies against reference and filtered walk"),
+    "C17": dict(
+        text="WriteTar over the (optionally filtered) view of seeded random trees (empty and multi-chunk files, hard-link groups, names > 100 "
+             "bytes, non-ASCII, devices, fifos, xattrs); the archive is parsed with archive/tar and with a strict 512-byte block walk and "
+             "extracted with GNU tar; TLC checks against spec/TarRef.tla: one member per view entry in walk order, trailing slash on directories, "
+             "exact size and bytes for regular files, no payload and zero size field for symlinks and hard links, type flags, device numbers, "
+             "mode, uid/gid, mtime to the second, SCHILY.xattr records, clean end of archive, and that the extracted tree equals the view.",
+        design_ref="DESIGN.md section 6 C17",
+        note="Trusted: TLC; archive/tar as reader; GNU tar 1.34 as extractor; the harness's block walker and snapshotter.",
+        technique="TLA+ member/extraction predicates (TarRef) + TLC trace validation of real WriteTar output parsed two ways and extracted"),
     "C18": dict(
         text="FollowLinks runs (in a watchdogged child process) over materialised trees with symlinks (relative, absolute, '..' beyond the root, "
              "chains, cycles, links in intermediate components, dangling) and request lists (literal, non-existent, wildcards), followed by a real "
